@@ -4,7 +4,10 @@ A change is kept only if: the patch applies, all baseline tests still pass with 
 the unpatched tree and fails on the patched tree."""
 import glob, json, os, shutil, sys
 NEEDS = json.load(open('/verif/seeded/needs.json')) if os.path.exists('/verif/seeded/needs.json') else {}
-for f in sorted(glob.glob('/tmp/seed/results/*.json')):
+RESULTS = sys.argv[1] if len(sys.argv) > 1 else '/tmp/seed/results'
+for f in sorted(glob.glob(RESULTS + '/*.json')):
+    if f.endswith('.pass2.json'):
+        continue
     try:
         r = json.load(open(f))
     except Exception:
@@ -22,6 +25,18 @@ for f in sorted(glob.glob('/tmp/seed/results/*.json')):
             shutil.copy(os.path.join(src, fn), os.path.join(dst, fn))
     old = json.load(open(os.path.join(dst, 'meta.json'))) if os.path.exists(os.path.join(dst, 'meta.json')) else {}
     checks = old.get('checks_run', {})
+    first_eval = None
+    p2 = f[:-5] + '.pass2.json'
+    if os.path.exists(p2):
+        # the first evaluation ran against the committed checks of that moment; the second one after the
+        # checks had been strengthened
+        first_eval = {cid: {'detected': c['rc'] == 1 and c['violation_lines'] > 0, 'exit_code': c['rc']}
+                      for cid, c in r.get('checked', {}).items()}
+        try:
+            r2 = json.load(open(p2))
+            r['checked'] = r2.get('checked', r['checked'])
+        except Exception:
+            pass
     for cid, c in r.get('checked', {}).items():
         checks[cid] = {'detected': c['rc'] == 1 and c['violation_lines'] > 0, 'exit_code': c['rc'],
                        'first_violation': c.get('first', ''), 'harness_notes': c.get('other', [])}
@@ -43,5 +58,7 @@ for f in sorted(glob.glob('/tmp/seed/results/*.json')):
         },
         'checks_run': checks,
     }
+    if first_eval is not None:
+        meta['first_evaluation_before_strengthening'] = first_eval
     json.dump(meta, open(os.path.join(dst, 'meta.json'), 'w'), indent=1)
     print('kept', name, {k: v['detected'] for k, v in checks.items()})
